@@ -17,7 +17,7 @@ REQUIRED_CLASSES = ["jump_to_prefixed_instruction", "shared_jump_target"]
 
 
 def examples(tier):
-    return 4000 if tier == "quick" else 50000
+    return 4000 if tier == "quick" else 100000
 
 
 def wall_budget(tier):
